@@ -6,7 +6,6 @@ import (
 	"fmt"
 	"os"
 	"path/filepath"
-	"runtime"
 	"sync"
 	"sync/atomic"
 	"time"
@@ -208,25 +207,17 @@ func (e *Env) Ingress() int64 {
 func (e *Env) WaitIngress() {
 	want := e.written.Load()
 	deadline := time.Now().Add(60 * time.Second)
-	for i := 0; e.Ingress() < want; i++ {
+	// Ingress walks the process-wide statistics: poll with a short exponential backoff, not a spin.
+	pause := 20 * time.Microsecond
+	for e.Ingress() < want {
 		if time.Now().After(deadline) {
 			Fatalf("ingest did not drain: %d of %d points forked after 60s", e.Ingress(), want)
 		}
-		if i < 50 {
-			runtime.Gosched()
-		} else {
-			time.Sleep(100 * time.Microsecond)
+		time.Sleep(pause)
+		if pause < 2*time.Millisecond {
+			pause *= 2
 		}
 	}
-}
-
-// MustPoint builds an influx point.
-func MustPoint(name string, tags map[string]string, fields map[string]any, t time.Time) imodels.Point {
-	p, err := imodels.NewPoint(name, imodels.NewTags(tags), fields, t)
-	if err != nil {
-		panic(err)
-	}
-	return p
 }
 
 // ---------- fake InfluxDB ----------
